@@ -56,7 +56,11 @@ def cases(draw):
                                           '"', "\\\\", "''", '""', "a\\'b", 'x\\"']})
     rows = draw(gen_tables.tables(spec, max_rows=8, ragged=True))
     if fmt["format"] == "fixed":
-        rows = [[cell.rstrip(" ") for cell in row] for row in rows]
+        # the caller need not pad: values come without their trailing blanks, with some of them or with all of them
+        # (whatever the spelling, it is the same value once written)
+        rows = [[cell.rstrip(" ") + " " * draw(st.sampled_from(
+            [0, 0, min(1, len(cell) - len(cell.rstrip(" "))), len(cell) - len(cell.rstrip(" "))])) for cell in row]
+            for row in rows]
         # values that are too long for their field only because of LEADING blanks (representable, unlike trailing
         # ones, and rejected by the length guard whatever their stripped text is)
         header_rows = fmt.get("header", 0)
@@ -182,7 +186,12 @@ def _check_with_target(sub, case, cid, target):
             elif verdict[0] == "cell":
                 expectation = ("reject", "FieldValueError", verdict[1])
             else:
-                vetoed = state.check_row(row, written)
+                # the checks see what is written: fixed-width values padded to the width of their field
+                seen = row
+                if fixed:
+                    seen = [cell + " " * (field["length_items"][0][0] - len(cell))
+                            for cell, field in zip(row, spec["fields"])]
+                vetoed = state.check_row(seen, written)
                 expectation = ("reject", "CheckError", None) if vetoed else ("accept",)
         if expectation[0] in ("header", "accept") and isinstance(target, _FileTarget):
             try:
